@@ -1,6 +1,7 @@
 package ast
 
 import (
+	"errors"
 	"fmt"
 	"strconv"
 	"strings"
@@ -55,9 +56,21 @@ func (v *Value) Value(vars map[string]interface{}) (interface{}, error) {
 		}
 		return nil, nil
 	case IntValue:
-		return strconv.ParseInt(v.Raw, 10, 64)
+		i, err := strconv.ParseInt(v.Raw, 10, 64)
+		if errors.Is(err, strconv.ErrRange) {
+			// an integer literal that does not fit int64 is still a number: it is handed on as
+			// a float64, as graphql-js does for every number
+			f, _ := strconv.ParseFloat(v.Raw, 64)
+			return f, nil
+		}
+		return i, err
 	case FloatValue:
-		return strconv.ParseFloat(v.Raw, 64)
+		f, err := strconv.ParseFloat(v.Raw, 64)
+		if errors.Is(err, strconv.ErrRange) {
+			// beyond float64: ±Inf, which is what f already is
+			return f, nil
+		}
+		return f, err
 	case StringValue, BlockValue, EnumValue:
 		return v.Raw, nil
 	case BooleanValue:
